@@ -106,14 +106,13 @@ def Lock.init (spec : Nat) (pre : Addr → Bool) : Lock :=
 
 /-! ## the transaction-level pre-warming the code performs -/
 
-/-- `BLOCKHASH_STORAGE_ADDRESS` of `primitives/src/constants.rs` -/
+/-- `BLOCKHASH_STORAGE_ADDRESS` of `primitives/src/constants.rs` (on no EIP access list; kept for the regression theorem) -/
 def BLOCKHASH_STORAGE_ADDRESS : Addr := 0x25a219378dad9b3503c8268c9ca836a52427a4fb
 
-/-- `warm_preloaded_addresses` after `load_accounts` (coinbase from Shanghai, the block-hash storage
-address from Prague) and `set_precompiles` -/
+/-- `warm_preloaded_addresses` after `load_accounts` (coinbase from Shanghai) and `set_precompiles`. (Until the
+repair eeb6165b in /repo, `load_accounts` also inserted `BLOCKHASH_STORAGE_ADDRESS` from Prague.) -/
 def codePreloaded (e : AccessSets.TxEnv) : List Addr :=
-  (if e.spec ≥ AccessSets.SHANGHAI then [e.coinbase] else []) ++
-  (if e.spec ≥ AccessSets.PRAGUE then [BLOCKHASH_STORAGE_ADDRESS] else []) ++ e.precompiles
+  (if e.spec ≥ AccessSets.SHANGHAI then [e.coinbase] else []) ++ e.precompiles
 
 /-- the journal operations of the pre-execution phase and of the first frame, in the order of
 `transact_preverified_inner`: `load_access_list` (`initial_account_load` per item), `deduct_caller`
